@@ -35,6 +35,11 @@ func c03WellFormed(w *verifWire, pfx string) {
 	if n < 4 {
 		return
 	}
+	// exactly one BeginString, BodyLength and CheckSum field: a second CheckSum inside the message ends it early for the peer
+	n8, _ := verifCount(w.fs, 8)
+	n9, _ := verifCount(w.fs, 9)
+	n10, _ := verifCount(w.fs, 10)
+	verifAssert(n8 == 1 && n9 == 1 && n10 == 1, pfx+"-single-beginstring-bodylength-checksum")
 	bl, ok := verifDec(w.fs[1].val)
 	verifAssert(ok && bl == w.fs[n-1].beg-w.fs[1].end, pfx+"-bodylength-correct")
 	cs := verifSum(w.raw[:w.fs[n-1].beg]) % 256
